@@ -259,6 +259,8 @@ def runCx (c : Case) : Res :=
               (let e := predExpect K.D sp q; e.orient.isSome && e.insphere.isSome)))
       if c.arg "op" == "serde_roundtrip" then
         stats := (if suffixDemanded then "cx.suffix.demanded" else "cx.suffix.band") :: stats
+      -- Level-4 verdict before/after a serde round trip: counted, not demanded (see harness p13)
+      if (c.ob "l4_pair").isSome then stats := s!"cx.serde.l4_pair.{c.ob1 "l4_pair"}" :: stats
       for n in ["unchanged", "vertices_kept", "key_resolves", "one_added", "removed_gone", "same_vertices", "roundtrip_equal"] do
         if n == "key_resolves" && !suffixDemanded then continue
         match c.ob n with
